@@ -41,7 +41,7 @@ func genC20(r *Rng, k int) *RunSpec {
 			if len(ids) > 0 && r.Intn(4) == 0 {
 				iid = Pick(r, ids)
 			} else {
-				iid = fmt.Sprintf("https://%s/act/i%d", hostR, i)
+				iid = fmt.Sprintf("https://%s%s/act/i%d%s", Pick(r, []string{"", "", "", "alice@", "bob:secret@"}), Pick(r, []string{hostR, hostR, hostR + ":8443"}), i, Pick(r, []string{"", "", "?v=1", "#frag"}))
 				ids = append(ids, iid)
 			}
 			if r.Intn(3) == 0 {
@@ -71,7 +71,7 @@ func genC20(r *Rng, k int) *RunSpec {
 		typ = Pick(r, names)
 		ctx = []string{asCtx, extTypes[typ]}
 	} else {
-		typ = Pick(r, asTypes)
+		typ = Pick(r, append(append([]string{}, asTypes...), "Tombstone", "Tombstone", "Tombstone"))
 	}
 	vid := "https://" + hostA + "/v/1"
 	val := J{"@context": ctx, "type": typ, "id": vid, "name": "value", "x-unknown": J{"kept": true}}
@@ -87,6 +87,9 @@ func genC20(r *Rng, k int) *RunSpec {
 		}
 	}
 	if typ == "Tombstone" {
+		if r.Bool() {
+			val["type"] = []string{"Tombstone", "Note"} // several types: still a Tombstone
+		}
 		val["formerType"] = "Note"
 		val["deleted"] = "2019-05-05T05:05:05Z"
 	}
